@@ -90,7 +90,7 @@ def gen_stmt(g, env, indent, depth):
     objs0 = [v for v, k in env.items() if k == "obj0"]
     objs1 = [v for v, k in env.items() if k == "obj1"]
     lists = [v for v, k in env.items() if k == "list"]
-    r = g.draw(st.integers(0, 27))
+    r = g.draw(st.integers(0, 31))
     w_ints = [v for v in ints if v not in g.frozen]
     w_strs = [v for v in strs if v not in g.frozen]
     if r <= 2 or not ints:
@@ -247,10 +247,10 @@ def gen_stmt(g, env, indent, depth):
         # a generated callee: writes the fields of its parameter object, maybe through an alias, maybe on both sides
         # of an early return guarded by an opaque flag; called from one or several sites
         if g.helpers and (len(g.helpers) >= 2 or g.coin()):
-            name, ret_obj, _ = g.pick(g.helpers)
+            name, ret_obj, _, fields = g.pick(g.helpers)
             g.labels.add("generated_callee_reused")
         else:
-            name, ret_obj, _ = gen_helper(g)
+            name, ret_obj, _, fields = gen_helper(g)
         g.labels.add("generated_callee")
         if g.cond < 5 and (g.cond == 0 or g.coin(2, 3)):
             c = "c%d" % g.cond
@@ -262,7 +262,7 @@ def gen_stmt(g, env, indent, depth):
         g.emit(indent, "%s = %s(%s, %s, %s)" % (v, name, o, c, g.pick(ints)), v, multi=True)
         env[v] = "obj0" if ret_obj else "int"
         w = g.fresh("v")
-        g.emit(indent, "%s = %s.%s" % (w, g.pick([o, o, v] if ret_obj else [o]), g.pick(["f0", "f1"])), w, multi=True)
+        g.emit(indent, "%s = %s.%s" % (w, g.pick([o, o, v] if ret_obj else [o]), g.pick(fields + ["f0", "f1"])), w, multi=True)
         env[w] = "int"
         return
     v = g.fresh("v")
@@ -272,15 +272,17 @@ def gen_stmt(g, env, indent, depth):
 
 
 def gen_helper(g):
+    """A callee over (o: K0 object, c: opaque flag, v: int): field writes through the parameter or an alias of it,
+    straight-line, on both sides of an early return, or under a branch."""
     name = "h%d" % len(g.helpers)
     body = []
     objs = ["o"]
-    if g.coin():
+    if g.coin(2, 3):
         body.append("q = o")
-        objs.append("q")
+        objs = ["o", "q", "q"]
     ret_obj = g.coin()
     have_t = [False]
-    early = [False]
+    written = []
 
     def value():
         return g.pick(["v", str(g.draw(st.integers(0, 9)))])
@@ -290,29 +292,39 @@ def gen_helper(g):
             return g.pick(objs)
         return g.pick(["v", "7"] + (["t"] if have_t[0] else []))
 
-    for _ in range(g.draw(st.integers(1, 5))):
-        k = g.draw(st.integers(0, 7))
-        if k <= 2:
-            body.append("%s.%s = %s" % (g.pick(objs), g.pick(["f0", "f1"]), value()))
-        elif k == 3:
-            body.append("t = %s.%s" % (g.pick(objs), g.pick(["f0", "f1"])))
-            have_t[0] = True
-        elif k == 4 and not early[0]:
-            body.append("if c:")
-            if g.coin():
-                body.append("    %s.%s = %s" % (g.pick(objs), g.pick(["f0", "f1"]), value()))
-            body.append("    return " + ret())
-            early[0] = True
-        elif k == 5 and len(objs) == 1:
-            body.append("q = o")
-            objs.append("q")
-        elif k == 6:
-            body.append("if c:")
-            body.append("    %s.%s = %s" % (g.pick(objs), g.pick(["f0", "f1"]), value()))
-        else:
-            body.append("%s.f1 = %s" % (g.pick(objs), value()))
+    def write(indent=""):
+        f = g.pick(["f0", "f1", "f1"])
+        written.append(f)
+        body.append("%s%s.%s = %s" % (indent, g.pick(objs), f, value()))
+
+    def straight(n):
+        for _ in range(n):
+            if g.coin(1, 4):
+                body.append("t = %s.%s" % (g.pick(objs), g.pick(["f0", "f1"])))
+                have_t[0] = True
+            else:
+                write()
+
+    shape = g.draw(st.integers(0, 3))
+    straight(g.draw(st.integers(0, 2)))
+    if shape <= 1:
+        # two exits: the writes that reach them differ
+        body.append("if c:")
+        if g.coin():
+            write("    ")
+        body.append("    return " + ret())
+        straight(g.draw(st.integers(1, 2)))
+    elif shape == 2:
+        body.append("if c:")
+        write("    ")
+        if g.coin():
+            body.append("else:")
+            write("    ")
+        straight(g.draw(st.integers(0, 1)))
+    else:
+        straight(g.draw(st.integers(1, 2)))
     body.append("return " + ret())
-    h = (name, ret_obj, ["def %s(o, c, v):" % name] + ["    " + b for b in body])
+    h = (name, ret_obj, ["def %s(o, c, v):" % name] + ["    " + x for x in body], written or ["f1"])
     g.helpers.append(h)
     return h
 
@@ -330,7 +342,7 @@ def programs(draw, loops=False, lists=False, max_stmts=14, empty_string=True, ca
     k = max(g.cond, 1)
     head = "def m0(%s):" % ", ".join("c%d" % i for i in range(k))
     lines = HEADER + [head] + g.lines
-    for _, _, hl in g.helpers:
+    for _, _, hl, _ in g.helpers:
         lines = lines + hl
     defs = dict(HEADER_DEFS)
     defs.update(g.defs)
